@@ -184,9 +184,10 @@ class GaussianMLPEnsemble(nnx.Module):
         state_i = jax.tree.map(lambda x: x[i], state)
         base_model = nnx.merge(graphdef, state_i)
         mean_i, log_var_i = base_model(x)
-        log_var_i = self._safe_log_var(
-            log_var_i, self.min_log_var, self.max_log_var
-        )
+        # one soft-bounded log-variance per output, for a vector or a batch
+        log_var_i = self._safe_log_var_i(
+            jnp.atleast_2d(log_var_i), self.min_log_var, self.max_log_var
+        ).reshape(log_var_i.shape)
         return mean_i, jnp.exp(log_var_i)
 
     def base_distribution(
@@ -211,9 +212,10 @@ class GaussianMLPEnsemble(nnx.Module):
         state_i = jax.tree.map(lambda x: x[i], state)
         base_model = nnx.merge(graphdef, state_i)
         mean_i, log_var_i = base_model(x)
+        # one soft-bounded log-variance per output, for a vector or a batch
         log_var_i = self._safe_log_var_i(
-            log_var_i, self.min_log_var, self.max_log_var
-        )
+            jnp.atleast_2d(log_var_i), self.min_log_var, self.max_log_var
+        ).reshape(log_var_i.shape)
         std_i = jnp.exp(0.5 * log_var_i)
         return dist.MultivariateNormalDiag(loc=mean_i, scale_diag=std_i)
 
